@@ -579,17 +579,21 @@ mod v_iface_frag {
     // @harness props=C12 cfg=KI4 tier=q to=600 mem=6 unwind=12 opts=nomem covers=2 funcs=Ipv4Packet::get_key;FragKey::eq bounds=two_arbitrary_20-byte_IPv4_headers
     #[kani::proof]
     pub(crate) fn ipv4_reasm_key() {
-        let a: [u8; 20] = kani::any();
-        let b: [u8; 20] = kani::any();
-        let ka = FragKey::Ipv4(Ipv4Packet::new_unchecked(&a[..]).get_key());
-        let kb = FragKey::Ipv4(Ipv4Packet::new_unchecked(&b[..]).get_key());
-        // RFC 791: fragments belong together iff identification, source, destination and protocol agree
-        let same = a[4] == b[4] && a[5] == b[5] && a[9] == b[9]
-            && a[12] == b[12] && a[13] == b[13] && a[14] == b[14] && a[15] == b[15]
-            && a[16] == b[16] && a[17] == b[17] && a[18] == b[18] && a[19] == b[19];
-        assert!((ka == kb) == same, "prop:c12_reasm_key_is_ident_src_dst_protocol");
-        kani::cover!(ka == kb && a[6] != b[6], "same datagram, different fragment offsets");
-        kani::cover!(ka != kb && a[4] == b[4] && a[5] == b[5] && a[9] != b[9], "same ident, different protocol");
+        // (this file is spliced into every build configuration: IPv4-only code is gated)
+        #[cfg(feature = "proto-ipv4-fragmentation")]
+        {
+            let a: [u8; 20] = kani::any();
+            let b: [u8; 20] = kani::any();
+            let ka = FragKey::Ipv4(Ipv4Packet::new_unchecked(&a[..]).get_key());
+            let kb = FragKey::Ipv4(Ipv4Packet::new_unchecked(&b[..]).get_key());
+            // RFC 791: fragments belong together iff identification, source, destination and protocol agree
+            let same = a[4] == b[4] && a[5] == b[5] && a[9] == b[9]
+                && a[12] == b[12] && a[13] == b[13] && a[14] == b[14] && a[15] == b[15]
+                && a[16] == b[16] && a[17] == b[17] && a[18] == b[18] && a[19] == b[19];
+            assert!((ka == kb) == same, "prop:c12_reasm_key_is_ident_src_dst_protocol");
+            kani::cover!(ka == kb && a[6] != b[6], "same datagram, different fragment offsets");
+            kani::cover!(ka != kb && a[4] == b[4] && a[5] == b[5] && a[9] != b[9], "same ident, different protocol");
+        }
     }
 
     // @harness props=C12 kind=mustfail cfg=KI4 tier=q to=600 mem=6 unwind=12 opts=nomem
